@@ -305,6 +305,15 @@ func (fl *Flow) At(in ssa.Instruction) FactSet {
 	return s
 }
 
+// AtBlockStart returns the facts holding at the entry of a block.
+func (fl *Flow) AtBlockStart(b *ssa.BasicBlock) FactSet {
+	base, ok := fl.in[b]
+	if !ok {
+		return nil
+	}
+	return base.clone()
+}
+
 // AtEdge returns the facts that hold after taking the CFG edge from -> to.
 func (fl *Flow) AtEdge(from, to *ssa.BasicBlock) FactSet {
 	base, ok := fl.in[from]
